@@ -520,6 +520,7 @@ class Cex:
             "detail": self.detail,
             "values": {k: enc(v) for k, v in self.values.items()},
             "path": "".join("1" if d else "0" for d in self.path if isinstance(d, bool))[:200],
+            "decisions": [["f" if isinstance(d, _Forked) else "b" if isinstance(d, bool) else "c", int(d)] for d in self.path if not isinstance(d, tuple)][:4000],
         }
 
 
@@ -580,6 +581,7 @@ class Explorer:
         self.logic = logic
         self.witness_paths = witness_paths
         self.witnesses = []
+        self.persist = {}  # survives across paths of this exploration (visited-state tables etc.)
         self.part = part  # (i, m): explore only the paths whose first m genuine forks follow the bits of i
         # per-path state
         self.solver = None
@@ -965,6 +967,11 @@ class Explorer:
             finally:
                 _CUR = prev
         return self
+
+
+def schedule_of(cex):
+    """The explorer's `choose` decisions (thread-schedule choices) of a counterexample, in order."""
+    return [int(d) for d in cex.path if not isinstance(d, (bool, _Forked, tuple))]
 
 
 def explore(body, **kw) -> Explorer:
